@@ -186,6 +186,7 @@ pub fn curated() -> Vec<Dataset> {
     d.edge(v0, "one", v1);
     d.edge(v1, "one", v3);
     d.edge(v0, "up", v1);
+    d.edge(v0, "up", v2); // a non-A vertex at recursion level 1 (fails the implicit coercion early)
     d.edge(v1, "up", v2);
     d.edge(v0, "extra", v2);
     d.edge(v0, "extra", v3);
